@@ -1,9 +1,11 @@
 #!/bin/bash
 # usage: process_mutants.sh <PID> <checks...>   -- verifies /tmp/wt/<PID>_out/m* and runs the given checks against each
+# (several instances may run side by side: each mutant is claimed through a lock directory)
 pid=$1; shift
-mkdir -p /tmp/mut/results
+mkdir -p /tmp/mut/results /tmp/mut/locks
 for d in /tmp/wt/${pid}_out/m*; do
   m=$(basename $d)
+  mkdir /tmp/mut/locks/${pid}_${m} 2>/dev/null || continue
   /verif/tools/mutant.py verify $d > /tmp/mut/results/${pid}_${m}.verify.json 2>&1
   /verif/tools/mutant.py check $d "$@" > /tmp/mut/results/${pid}_${m}.check.json 2>&1
 done
